@@ -6,17 +6,18 @@ TRUSTED = [
     "class A (modelled at digit level and proved, Model/Fp + Lemmas/Fp): fp_addm/subm/negm/dblm/hlvm, Montgomery reduction fp_rdcn_low, "
     "fp_mulm/fp_sqrm, conversions",
     "class A (modelled at value level over [0,p) with the loops, windows, tables, branches, Montgomery-domain conversions and error "
-    "conditions of the C function, Model/FpAlg; proved for every input in Props/C02B; the model's prediction is the model column of every "
+    "conditions of the C function, Model/FpAlg, Model/FpAlgCrt; proved for every input in Props/C02B; the model's prediction is the model column of every "
     "presented line): fp_exp_basic, fp_exp_slide (odd-power table + bn_rec_slw windows, refusal of exponents longer than RLC_FP_BITS+1 "
     "bits), fp_exp_monty (ladder with conditional swaps), fp_exp_dig, the sign handling of negative exponents through fp_inv; "
     "fp_inv_monty (Kaliski phase 1, reduction of x1, phase 2 with 2^(2m-k)), fp_inv_binar, fp_inv_exgcd, fp_inv_basic, fp_inv_lower / "
     "fp_invm_low, fp_inv_sim (every list length >= 1, zero element -> error of fp_inv); fp_smb_basic / fp_smb_lower (Euler) = Legendre "
-    "symbol; fp_srt (p = 3 mod 4 branch and the constant-time Tonelli-Shanks branch, which covers p = 5 mod 8) and fp_is_sqr. The models treat "
+    "symbol; fp_srt (p = 3 mod 4 branch and the constant-time Tonelli-Shanks branch, which covers p = 5 mod 8) and fp_is_sqr; the three "
+    "one-exponentiation branches of fp_crt (p = 2 mod 3, p = 4 mod 9, p = 7 mod 9). The models treat "
     "fp_mul / fp_sqr / fp_neg as the Z/pZ operation (proved at digit level above) - the composition is by value, not by digits",
     "fp_is_sqr and the flag of the Tonelli-Shanks branch of fp_srt call fp_smb = fp_smb_jmpds (FP_SMB = JMPDS), which is not modelled: the "
     "model evaluates Euler's criterion instead, so on those lines the tie pins the value of fp_smb_jmpds, not its algorithm",
     "class C (compared with the Z/pZ specification only, not modelled): fp_inv_divst, fp_inv_jmpds (Bernstein-Yang divsteps), fp_smb_binar "
-    "(Pornin), fp_smb_divst, fp_smb_jmpds, fp_crt / fp_is_cub, fp_add_dig / sub_dig / mul_dig; pinned by a*c = 1, Euler's criterion, r^3 = a",
+    "(Pornin), fp_smb_divst, fp_smb_jmpds, the general (p = 1 mod 9, cubic Tonelli-Shanks) branch of fp_crt and fp_is_cub, fp_add_dig / sub_dig / mul_dig; pinned by a*c = 1, Euler's criterion, r^3 = a",
     "the Tonelli-Shanks loop is proved for every 2-adicity f, but the primes of the verified configurations only exercise f <= 2 (one "
     "iteration without inner squarings); deeper iterations of the C loop are covered by the theorem about the model, not by the tie",
     "the field context (p, u, conv, qnr, RLC_FP_BITS, RLC_WIDTH, 2-adicity, root of unity of fp_srt) is read from the running library; its "
@@ -180,8 +181,12 @@ def alg_sweep(rng, p, w, n, scale=1):
         for d in [0, 1, 2, 3, 4, 5, 7, 8, 0xff, 1 << (w - 1), (1 << w) - 1, (1 << (w - 1)) + 1, rng.bits(w), rng.bits(w), rng.bits(9)]:
             out.append("fpd exp_dig %d %x %x" % (rng.below(2), rng.choice(bases), d))
         mont_small = [j * Ri % p for j in (1, 2, 3, 4, 5, 1 << 10, 1 << 63, 1 << 64, 1 << 128, 1 << (fb - 2), p - 1, p - 2, (p - 1) // 2)]
+        # powers of the digit base +-1 and their complements: multi-digit values whose low digit is 1 / all-ones (the `used == 1 &&
+        # dp[0] == 1` exits of the binary algorithms), also reached from p by one subtraction
+        basepm = [(1 << (w * i)) + d for i in range(1, n) for d in (1, -1)]
+        basepm += [p - x for x in basepm] + [(p - x) // 2 for x in basepm[:2]]
         invops = [0, 1, 2, 3, 4, p - 1, p - 2, (p - 1) // 2, (p + 1) // 2, 1 << 64, 1 << 128, 1 << (fb - 2), (1 << 64) - 1, Ri, R % p,
-                  uni(), uni(), uni()] + mont_small
+                  uni(), uni(), uni()] + mont_small + basepm
         for a in invops:
             for op in INVS:
                 if rng.chance(2, 3) or a in (0, 1, p - 1):
@@ -198,7 +203,7 @@ def alg_sweep(rng, p, w, n, scale=1):
                 if rng.chance(1, 2) or ln <= 3:
                     out.append("fpsim %d %s" % (rng.below(2), " ".join("%x" % x for x in z)))
         for a in [0, 1, 2, 3, 4, 9, p - 1, p - 2, p - 4, (p - 1) // 2, uni(), uni(), uni(), uni()]:
-            for op in ("srt", "smb", "smb_basic", "smb_binar", "smb_divst", "smb_jmpds", "smb_lower", "is_sqr"):
+            for op in ("srt", "crt", "smb", "smb_basic", "smb_binar", "smb_divst", "smb_jmpds", "smb_lower", "is_sqr"):
                 out.append("fp1 %s %d %x" % (op, rng.below(2), a % p))
                 out.append("fp1 %s %d %x" % (op, rng.below(2), a * a % p))
     return out
